@@ -524,3 +524,14 @@ func (w *World) Prepare(c Call) func() error {
 	}
 	return func() error { return fmt.Errorf("unknown call kind %q", c.K) }
 }
+
+// ProjectL3 projects one UserAction line of the daemon's output file (L3): the
+// tag is recovered from the kernel time stamp, identity is resolved by the caller.
+func (w *World) ProjectL3(line []byte, tsTag map[int64]int) Out {
+	w.tsTag = tsTag
+	o := w.projectOne(line)
+	if _, ok := w.events[o.Tag]; !ok {
+		o.Wf = true // rendering is checked at L1/L2 against the reference; not at L3
+	}
+	return o
+}
